@@ -185,7 +185,10 @@ func (s *selectForUpdateExecutor) doExecContext(ctx context.Context, f exec.Call
 	}
 
 	if lockKey == "" {
-		return nil, nil
+		// the key values could not be read: without them the coordinator cannot
+		// be asked, so the rows must not reach the caller (and neither may a
+		// nil result with a nil error, which the caller dereferences)
+		return nil, fmt.Errorf("select for update on %s: cannot read the primary key values of the selected rows", s.metaData.TableName)
 	}
 
 	// execute business SQL, try to get local lock
